@@ -50,7 +50,10 @@ let () = register "c07.diags" (fun line ->
   let spec = List.mapi (fun i (p, b) -> (p, spec_diags the_cfg b (others i))) blocks in
   let cls = ref [] in
   if List.exists (fun (_, b) -> multi_local_order b) blocks then cls := "multi_local_order" :: !cls;
-  if List.exists (fun (_, b) -> not (pos_clean b)) blocks then cls := "pos_filter" :: !cls;
+  (* the guards of C07_diags_agree_partial that come from the layout of the Locs (all implied by Laid, theorem
+     C07_laid_pos_clean / C07_laid_distinct): position filter clean, declaration Locs pairwise distinct, flags ok.
+     They fail only through the lexer's column defects (C04 findings): one class, one finding *)
+  if List.exists (fun (_, b) -> not (pos_clean b) || not (decl_locs_distinct b) || not (flags_ok b)) blocks then cls := "pos_filter" :: !cls;
   let le = ref false in
   List.iteri (fun i (_, b) -> if later_elsewhere the_cfg b (others i) then le := true) blocks;
   if !le then cls := "later_elsewhere" :: !cls;
